@@ -480,7 +480,7 @@ impl HttpServer {
     /// Note that this function can block the thread on write, since the
     /// operation is blocking.
     pub fn flush_outgoing_writes(&mut self) {
-        for (_, connection) in self.connections.iter_mut() {
+        for (fd, connection) in self.connections.iter_mut() {
             while connection.state == ClientConnectionState::AwaitingOutgoing {
                 if let Err(e) = connection.write() {
                     if let ServerError::ConnectionError(ConnectionError::InvalidWrite) = e {
@@ -488,6 +488,16 @@ impl HttpServer {
                         // flushed the connection
                     }
                     break;
+                }
+                if connection.state == ClientConnectionState::AwaitingIncoming {
+                    // Everything was written: the `epoll` event set has to follow the state,
+                    // otherwise the connection keeps being reported as writable and the next
+                    // `requests()` call attempts a write with nothing to write.
+                    let _ = Self::epoll_mod(
+                        &self.epoll,
+                        *fd,
+                        epoll::EventSet::IN | epoll::EventSet::READ_HANG_UP,
+                    );
                 }
             }
         }
